@@ -236,6 +236,8 @@ def call(name, *args):
 def phi(c, a, b):
     if a == b:
         return a
+    if c[0] == "not":
+        return phi(c[1], b, a)         # canonical polarity: conditions of phi nodes are never negations
     if c == ("bool", True):
         return a
     if c == ("bool", False):
